@@ -47,7 +47,7 @@ type CProg struct {
 
 var cascadeGates = map[string]bool{
 	"pool.worker.head": true, "pool.getTask.kill": true, "pool.getTask.pop": true, "pool.idle.reg": true,
-	"pool.idle.afterWake": true, "pool.addTask.unlocked": true,
+	"pool.idle.afterWake": true,
 	"pool.setWorkers.grown": true, "pool.setWorkers.idleWait": true,
 	"task.run.start": true, "task.run.failed": true, "task.run.end": true,
 	"task.handleError.set": true, "task.handleError.finished": true, "task.handleError.notified": true,
@@ -66,6 +66,20 @@ type cascadeRun struct {
 	mons   []engine.Monitor
 	closed int32
 	panics []string
+	align  bool  // free runs: actions meet at a spin barrier so that engine calls collide in time
+	arrive int32 // arrivals at the barrier
+}
+
+// meet lets goroutines that arrive within a short window proceed at the same instant (free runs only):
+// unsynchronised engine state is then touched truly in parallel instead of by accident.
+func (cr *cascadeRun) meet() {
+	if !cr.align {
+		return
+	}
+	n := atomic.AddInt32(&cr.arrive, 1)
+	deadline := time.Now().Add(150 * time.Microsecond)
+	for atomic.LoadInt32(&cr.arrive) == n && time.Now().Before(deadline) {
+	}
 }
 
 type cascadeResult struct {
@@ -127,6 +141,7 @@ func newCascadeRun(prog *CProg, controlled bool) *cascadeRun {
 					if atomic.LoadInt32(&cr.closed) != 0 {
 						break
 					}
+					cr.meet()
 					child := m.NewChildMonitor(ad.Prio)
 					cr.track(child)
 					cr.s.Record("p.child", m.ID(), child.ID(), ad.Prio, ad.Kind)
@@ -137,6 +152,7 @@ func newCascadeRun(prog *CProg, controlled bool) *cascadeRun {
 					cr.s.Record("p.hp", m.RootMonitor().ID(), m.RootMonitor().HighestPriority())
 				}
 				cr.s.Gate("rule.end", m.ID(), rule.Name, rule.Fail)
+				cr.meet()
 				if rule.Fail {
 					return fmt.Errorf("fail:%s", rule.Name)
 				}
@@ -287,6 +303,7 @@ func runCascadeExplore(prog *CProg, ch sched.Chooser) *cascadeResult {
 
 func runCascadeFree(prog *CProg) *cascadeResult {
 	cr := newCascadeRun(prog, false)
+	cr.align = true
 	deadline := time.Now().Add(20 * time.Second)
 	var st *sched.Stable
 	var err error
@@ -364,9 +381,13 @@ func randomCascade(rng *rand.Rand, name string, maxDepth, maxRulesPerKind, maxAd
 			}
 		}
 	}
-	nroots := 1 + rng.Intn(2)
+	nroots := 1 + rng.Intn(3)
 	for i := 0; i < nroots; i++ {
-		p.Roots = append(p.Roots, layers[0][rng.Intn(len(layers[0]))])
+		if i > 0 && rng.Intn(4) == 0 {
+			p.Roots = append(p.Roots, "none.x") // a waiting call whose root event triggers nothing
+		} else {
+			p.Roots = append(p.Roots, layers[0][rng.Intn(len(layers[0]))])
+		}
 	}
 	return p
 }
